@@ -16,6 +16,7 @@ Record c07_obs := mkObs {
 
 Record c07_case := mkCase {
   c_base : str;
+  c_unrooted : bool;                  (* base rebuilt with from_parts(path_parts = parts[1:]), as its doc suggests *)
   c_ref1 : str; c_as_url1 : bool;     (* reference passed as str / as URL object *)
   c_ref2 : str; c_as_url2 : bool;
   c_obs : c07_obs }.
@@ -27,15 +28,26 @@ Definition obs_eqb (a b : c07_obs) : bool :=
   str_eqb (o_nb1 a) (o_nb1 b) && str_eqb (o_nb2 a) (o_nb2 b) &&
   str_eqb (o_nr1 a) (o_nr1 b) && str_eqb (o_nr2 a) (o_nr2 b).
 
+(* what the harness does for c_unrooted: URL.from_parts(scheme, host, path_parts[1:], query_params,
+   fragment, port, username, password) when the parsed path is ('', s, ...) with s non-empty *)
+Definition unroot (b : url) : url :=
+  match u_path b with
+  | [] :: (ch :: s) :: rest =>
+      from_parts (u_scheme b) (u_host b) ((ch :: s) :: rest) (u_query b) (u_frag b) (u_port b)
+                 (u_user b) (u_pass b)
+  | _ => b
+  end.
+
 (* the model run on the case *)
 Definition c07_model (c : c07_case) : option c07_obs :=
   match url_of_text (c_base c), url_of_text (c_ref1 c) with
-  | Some b, Some r =>
+  | Some b0, Some r =>
+      let nb := normalize b0 in
+      let b := if c_unrooted c then unroot b0 else b0 in
       match navigate b (c_ref1 c) (c_as_url1 c) with
       | Some n1 =>
           match navigate n1 (c_ref2 c) (c_as_url2 c) with
           | Some n2 =>
-              let nb := normalize b in
               let nr := normalize r in
               Some (mkObs (to_text b) (to_text n1) (to_text n1) (to_text b) (to_text n2)
                           (to_text nb) (to_text (normalize nb))
